@@ -807,9 +807,21 @@ func (e *MetaCDC) checkCollectionInfos(infos []model.CollectionInfo) error {
 	return servererror.NewClientError(errMsg)
 }
 
-func (e *MetaCDC) startInternal(info *meta.TaskInfo, ignoreUpdateState bool) error {
+func (e *MetaCDC) startInternal(info *meta.TaskInfo, ignoreUpdateState bool) (retErr error) {
 	taskLog := log.With(zap.String("task_id", info.TaskID))
 	uKey := getTaskUniqueIDFromInfo(info)
+	defer func() {
+		if retErr == nil {
+			return
+		}
+		// a start that failed must not leave behind an entity nobody uses
+		e.replicateEntityMap.Lock()
+		if entity, ok := e.replicateEntityMap.data[uKey]; ok && entity.refCnt.Load() == 0 {
+			entity.entityQuitFunc()
+			delete(e.replicateEntityMap.data, uKey)
+		}
+		e.replicateEntityMap.Unlock()
+	}()
 
 	e.replicateEntityMap.RLock()
 	replicateEntity, ok := e.replicateEntityMap.data[uKey]
@@ -886,21 +898,24 @@ func (e *MetaCDC) startInternal(info *meta.TaskInfo, ignoreUpdateState bool) err
 		return err
 	}
 	readCtx, cancelReadFunc := context.WithCancel(log.WithTraceID(context.Background(), info.TaskID))
-	replicateEntity.taskQuitFuncs.Insert(info.TaskID, func() {
+	quitFunc := func() {
 		collectionReader.QuitRead(readCtx)
 		channelReader.QuitRead(readCtx)
 		cancelReadFunc()
-	})
-	replicateEntity.refCnt.Inc()
-	replicateEntity.UpdateMapping(GetCollectionMappingFromTaskInfo(info))
+	}
 
 	if !ignoreUpdateState {
 		err = store.UpdateTaskState(e.metaStoreFactory.GetTaskInfoMetaStore(ctx), info.TaskID, meta.TaskStateRunning, []meta.TaskState{meta.TaskStateInitial, meta.TaskStatePaused}, "")
 		if err != nil {
 			taskLog.Warn("fail to update the task meta", zap.Error(err))
+			quitFunc()
 			return servererror.NewServerError(errors.WithMessage(err, "fail to update the task meta, task_id: "+info.TaskID))
 		}
 	}
+	// the task takes its share of the entity only once it is running
+	replicateEntity.taskQuitFuncs.Insert(info.TaskID, quitFunc)
+	replicateEntity.refCnt.Inc()
+	replicateEntity.UpdateMapping(GetCollectionMappingFromTaskInfo(info))
 	e.cdcTasks.Lock()
 	info.State = meta.TaskStateRunning
 	info.Reason = ""
